@@ -23,6 +23,6 @@ for i in (1, 2, 3, 4):
     meta = {"property": P, "round": int(rnd), "change": title, "needs_to_manifest": needs,
             "written_by": "independent sub-agent given the texts of all properties, one source area and a scratch worktree; it named the property the change violates most directly",
             "confirmed": "tools/confirm_seed.sh in a scratch worktree: 137 tests + doctests pass with the change; demonstration fails with it and passes without it",
-            "ran": "python3 tools/seedall.py --only %s-r4a%sm%d" % (P, area, i)}
+            "ran": "python3 tools/seedall.py --only %s-r%sa%sm%d" % (P, rnd, area, i)}
     json.dump(meta, open(os.path.join(dst, "meta.json"), "w"), indent=1)
     print(os.path.basename(dst), "-", title)
